@@ -31,6 +31,7 @@ import (
 )
 
 const sec = int64(time.Second)
+const maxRows = 2000
 
 // ---- case data ----
 
@@ -343,8 +344,10 @@ func exec(wd *world, c *jcase) {
 		c.Err = errClass(err)
 		return
 	}
-	em := query.NewEmitter(cur, 0)
+	em := query.NewEmitter(cur, 500) // chunked so that a runaway result is cut early; chunks of one series are re-joined below
 	defer em.Close()
+	total := 0
+	lastPartial := false
 	for {
 		row, _, err := em.Emit()
 		if err != nil {
@@ -354,6 +357,11 @@ func exec(wd *world, c *jcase) {
 		if row == nil {
 			break
 		}
+		if total > maxRows { // a correct engine returns <= ~150 rows on these domains
+			c.Err = "runaway: engine returned more than 2000 rows"
+			return
+		}
+		total += len(row.Values)
 		s := jseries{Tags: [][2]string{}, Rows: []jrow{}}
 		keys := make([]string, 0, len(row.Tags))
 		for k := range row.Tags {
@@ -391,7 +399,12 @@ func exec(wd *world, c *jcase) {
 			}
 			s.Rows = append(s.Rows, r)
 		}
-		c.Out = append(c.Out, s)
+		if n := len(c.Out); n > 0 && lastPartial && fmt.Sprint(c.Out[n-1].Tags) == fmt.Sprint(s.Tags) {
+			c.Out[n-1].Rows = append(c.Out[n-1].Rows, s.Rows...)
+		} else {
+			c.Out = append(c.Out, s)
+		}
+		lastPartial = row.Partial
 	}
 }
 
